@@ -71,7 +71,7 @@ pub fn run(tape: &[u8], ctx: &mut Ctx) {
 		let Ok(mut w) = build_writer(&mut sc, &h, Vec::new()) else { return };
 		for op in &h.ops {
 			if apply_op(&mut w, &h, op, &mut accepted).is_err() {
-				std::mem::forget(w);
+				discard(w);
 				ctx.label("skipped:write-failed(C05)");
 				return;
 			}
